@@ -281,7 +281,7 @@ TABLE = {
 CONSTANTS = {
     'string.ascii_letters': string.ascii_letters, 'string.ascii_uppercase': string.ascii_uppercase,
     'string.ascii_lowercase': string.ascii_lowercase, 'string.digits': string.digits,
-    'numpy.inf': None, 'math.inf': None, 'sys.argv': ['prog'],
+    'numpy.inf': None, 'math.inf': None, 'sys.argv': ['prog'], 're.UNICODE': 32,
 }
 
 EXTRA = {}      # contracts may register further externals: dotted -> fn(eng,args,kwargs,node)
@@ -319,3 +319,8 @@ def call(dotted, eng, args, kwargs, node):
         raise Unsupported('external %s has no assumed contract' % dotted)
     eng.trusted_used.add(dotted)
     return fn(eng, args, kwargs, node)
+
+
+from . import regex as _regex      # noqa: E402  (re.fullmatch / re.match / re.search with constant patterns -> z3 InRe)
+TABLE.update(_regex.TABLE)
+_regex.install_stubs()
